@@ -249,7 +249,7 @@ def _run_shard(side, k, chunk, work, timeout):
     return side, results, died
 
 
-def run_cases(lines, tag, sides=("model", "debug", "release"), timeout=600, shards=None):
+def run_cases(lines, tag, sides=("model", "debug", "release"), timeout=600, shards=None, confirm=True):
     """lines: a list (same cases for every side) or a dict side -> list.
     Returns ({side: {id: result}}, {side: [deaths]})."""
     work = f"{BUILD}/work/{tag}"
@@ -277,7 +277,8 @@ def run_cases(lines, tag, sides=("model", "debug", "release"), timeout=600, shar
     for side in sides:
         for l in by_side[side]:
             results[side].setdefault(case_id(l), "tool-died")
-    _confirm_timeouts(by_side, results, work)
+    if confirm:
+        _confirm_timeouts(by_side, results, work)
     return results, died
 
 
@@ -286,10 +287,13 @@ def _confirm_timeouts(by_side, results, work):
     milliseconds can exceed it.  A 'timeout' is therefore only reported after the case has timed out
     again when run alone (one case per process, nothing else of ours running) with a limit of 60 s."""
     env = dict(ENV, VERIF_CASE_TIMEOUT="60")
+    # cases the model itself gives up on (step/size budget) are discarded by every comparison: no need to wait
+    long_running = {cid for side in by_side if side.startswith("model")
+                    for cid, r in results[side].items() if r.startswith(("outoffuel", "overbudget"))}
     for side, ls in by_side.items():
         if side.startswith("model"):
             continue
-        again = [l for l in ls if results[side].get(case_id(l)) == "timeout"]
+        again = [l for l in ls if results[side].get(case_id(l)) == "timeout" and case_id(l) not in long_running]
         confirmed = 0
         for n, l in enumerate(again[:40]):
             if confirmed >= 3:      # a real hang: no need to wait a minute for each further case
